@@ -1799,6 +1799,9 @@ func TestVerifC09(t *testing.T) {
 			kind = scripted[(h/2)%len(scripted)]
 		}
 		steps := 6 + rng.Intn(10)
+		if os.Getenv("VERIF_TIER") == "thorough" && rng.Intn(4) == 0 {
+			steps = 16 + rng.Intn(18) // longer histories: deeper version chains, more forks and merges
+		}
 		if kind == "validator-sweep" {
 			steps = 24
 		}
